@@ -2,8 +2,10 @@ package main
 
 import (
 	"fmt"
+	"os"
 	"path/filepath"
 	"strings"
+	"time"
 
 	"verif/internal/chk"
 	"verif/internal/gen"
@@ -260,6 +262,77 @@ func c01(args []string) {
 			c.Sample(map[string]interface{}{"topology": fc.tc.kind, "path_shape": fc.tc.shape, "gofunc": fc.tc.gof, "fault": fc.label, "target": fc.key, "crash": fc.crash, "exit": res.Exit, "signal": res.Signal, "entries_outside_tempdirs": nfin})
 		}
 	})
+	// syscall-level observation: final-path trace specification on strace logs, and kills injected by strace
+	// before the N-th file-system mutating syscall of some thread
+	{
+		type stCase struct {
+			tc   topoCase
+			when int // 0 = no injected kill
+			set  string
+		}
+		var scs []stCase
+		for i, tc := range tcs {
+			if !c.Thorough() && i%5 != 0 {
+				continue
+			}
+			scs = append(scs, stCase{tc: tc})
+			nk := c.Pick(2, 14)
+			for k := 0; k < nk; k++ {
+				set := []string{"renameat", "openat", "mkdirat,unlinkat,renameat", "renameat,openat"}[k%4]
+				scs = append(scs, stCase{tc: tc, when: 1 + rng.Intn(c.Pick(6, 30)), set: set})
+			}
+		}
+		run.ParallelN(8, len(scs), func(i int) {
+			sc := scs[i]
+			root := c.CaseDir()
+			defer c.Drop(root)
+			s := gen.Topo(sc.tc.kind, sc.tc.shape, sc.tc.gof, root, sc.tc.n)
+			exp := evalRef(s, nil)
+			bh := gen.TopoBehav(sc.tc.kind, exp)
+			exp = ref.Eval(&ref.Input{Spec: s, Files: sourcesOf(s), Behav: bh})
+			os.MkdirAll(filepath.Join(root, "meta"), 0777)
+			log := filepath.Join(root, "meta", "strace.log")
+			wrap := []string{"strace", "-f", "-y", "-qq", "-s", "4096", "-e", "trace=%file,%process", "-o", log}
+			if sc.when > 0 {
+				wrap = append(wrap, "-e", fmt.Sprintf("inject=%s:signal=SIGKILL:when=%d", sc.set, sc.when))
+			}
+			cs := &run.Case{Root: root, Bin: c.Bin, Spec: s, Env: Cfg{Buf: 128, Procs: 2}.env(), Behav: bh, Wrap: wrap, Soft: 60 * time.Second, Hard: 150 * time.Second}
+			c.Eval(1)
+			res := cs.Run()
+			if res.Hang != "" && !strings.HasPrefix(res.Hang, "deadlock") {
+				c.Inconclusive("strace run: " + res.Hang)
+				return
+			}
+			finals := map[string]bool{}
+			for _, t := range exp.Tasks {
+				for port, p := range t.Outs {
+					if !t.Streams[port] {
+						finals[filepath.Join(root, mon.RootRel(root, p))] = true
+					}
+				}
+			}
+			sps, st := mon.StraceSpec(log, filepath.Join(root, "wd"), finals, nil)
+			ti := mon.Index(res.Trace)
+			sps = append(sps, mon.Atomicity(root, mon.SnapRoot(root), exp, ti, preRootSet(root, s))...)
+			c.Count("strace_lines_checked", st.Lines)
+			c.Count("strace_renames_onto_final_paths", st.RenamesFinal)
+			c.Count("strace_runs", 1)
+			if sc.when == 0 && (res.Exit != 0 || st.RenamesFinal == 0) {
+				c.Inconclusive(fmt.Sprintf("strace observer run of %s saw %d renames onto final paths (exit %d)", s.Name, st.RenamesFinal, res.Exit))
+				return
+			}
+			if len(sps) > 0 {
+				for _, sig := range sigSet(sps) {
+					c.Violation("syscall:"+sig, fmt.Sprintf("%s %s gofunc=%v under strace (injected kill: %s when=%d):\n  %s", sc.tc.kind, sc.tc.shape, sc.tc.gof, sc.set, sc.when, strings.Join(mon.Summarize(sps, 4), "\n  ")),
+						map[string]interface{}{"spec": s, "inject": sc.set, "when": sc.when, "problems": mon.Summarize(sps, 20)})
+				}
+				return
+			}
+			if sc.when == 0 || res.Exit != 0 {
+				c.Nontrivial(fmt.Sprintf("strace|%s|%s|%v|%s|%d", sc.tc.kind, sc.tc.shape, sc.tc.gof, sc.set, sc.when))
+			}
+		})
+	}
 	// documented Go-function API (docs/howtos/golang_components.md): task.OutIP(port).Write(bytes)
 	{
 		root := c.CaseDir()
@@ -297,4 +370,3 @@ func faultClass(label string) string {
 	return label
 }
 
-var _ = filepath.Join
